@@ -241,11 +241,17 @@ def bounded(ctx):
                     break
                 if len(samples) < 2 and r:
                     samples.append(dict(enzyme=e.__name__, plasmid=name, k=r, inherited=sorted(exp_by)[:6]))
+    # the shared scenarios: this property's oracle over the cross product of the unusual input dimensions
+    from bounded import scenarios as sn
+    n_sw, d_sw, v_sw = sn.sweep(ctx, ns, 'features')
+    evals += n_sw
+    distinct |= {("shared",) + tuple(map(str, k_)) for k_ in d_sw}
+    viol.extend(v_sw)
     uniq = {}
     for v_ in viol:
         uniq.setdefault(v_["name"], v_)
     return dict(evaluations=evals, distinct_nontrivial=len(distinct),
-                rule="BsaI and BpiI vector + 2 modules, each plasmid carrying 8-12 features placed relative to its retained stretch "
+                rule="" + sn.SWEEP_RULE + "; BsaI and BpiI vector + 2 modules, each plasmid carrying 8-12 features placed relative to its retained stretch "
                      "(simple, reverse strand, whole fragment, at the end, crossing the left/right boundary, outside, abutting outside, "
                      "2-part joins on either strand, a join with one part outside, nested), written as origin-spanning joins when the "
                      "rotation requires; one plasmid at a time rotated through every rotation (quick: every 4th plus the boundary "
